@@ -129,8 +129,8 @@ Fixpoint ops_size (ops : list op) : nat := match ops with [] => 0 | o :: r => op
 
 Definition dinv (d : doc) : Prop := wf (dtree d) /\ d = update_flags (dtree d).
 
-Lemma finish_small : forall limit t, N.of_nat (length t) <= limit -> finish limit t = update_flags t.
-Proof. intros limit t H. unfold finish. rewrite (prune_small limit t H). reflexivity. Qed.
+Lemma finish_small : forall fx limit t, N.of_nat (length t) <= limit -> finish fx limit t = update_flags t.
+Proof. intros fx limit t H. unfold finish. rewrite (prune_small limit t H). cbn [fst snd]. rewrite andb_false_r. reflexivity. Qed.
 
 Lemma dinv_empty : dinv empty_doc.
 Proof. split; [apply wf_nil | reflexivity]. Qed.
@@ -190,13 +190,13 @@ Proof.
 Qed.
 
 (* one step, revs_limit not reached *)
-Lemma step_inv : forall allowC limit d o,
+Lemma step_inv : forall fx allowC limit d o,
   dinv d -> valid_op o -> N.of_nat (length (dtree d) + op_size o) <= limit ->
-  let d' := fst (step allowC limit d o) in
+  let d' := fst (step fx allowC limit d o) in
   dinv d' /\ (length (dtree d') <= length (dtree d) + op_size o)%nat /\
   (allowC = false -> (live_count (dtree d) <= 1)%nat -> (live_count (dtree d') <= 1)%nat).
 Proof.
-  intros allowC limit d o I V Lim. cbn zeta.
+  intros fx allowC limit d o I V Lim. cbn zeta.
   assert (Same : dinv d /\ (length (dtree d) <= length (dtree d) + op_size o)%nat /\
                  (allowC = false -> (live_count (dtree d) <= 1)%nat -> (live_count (dtree d) <= 1)%nat))
     by (split; auto; split; [lia | auto]).
@@ -222,7 +222,7 @@ Proof.
                      (live_count (dtree d) + (if deleted then 0 else 1) <= 1 + (if live_leaf (dtree d) par then 1 else 0))%nat) ->
        let r := (if negb (gen newid =? gen (wid par) + 1) then (d, RErr)
                  else match add (dtree d) (R newid par deleted) with
-                      | Some t' => (finish limit t', ROk)
+                      | Some t' => (finish fx limit t', ROk)
                       | None => (d, RErr)
                       end) in
        dinv (fst r) /\ (length (dtree (fst r)) <= length (dtree d) + 1)%nat /\
@@ -254,16 +254,16 @@ Lemma live_count_nil : live_count [] = 0%nat.
 Proof. reflexivity. Qed.
 
 (* all reachable documents, as long as revs_limit is not reached *)
-Lemma run_inv : forall allowC limit ops d,
+Lemma run_inv : forall fx allowC limit ops d,
   dinv d -> Forall valid_op ops -> N.of_nat (length (dtree d) + ops_size ops) <= limit ->
-  let d' := run allowC limit d ops in
+  let d' := run fx allowC limit d ops in
   dinv d' /\ (allowC = false -> (live_count (dtree d) <= 1)%nat -> (live_count (dtree d') <= 1)%nat).
 Proof.
-  intros allowC limit. induction ops as [|o ops IH]; intros d I V Lim; cbn [run].
+  intros fx allowC limit. induction ops as [|o ops IH]; intros d I V Lim; cbn [run].
   - split; auto.
   - inversion V as [|? ? Vo Vr]; subst. cbn [ops_size] in Lim.
-    destruct (step_inv allowC limit d o I Vo) as (I' & L' & C'); [lia|].
-    destruct (IH (fst (step allowC limit d o)) I' Vr) as (I'' & C''); [lia|].
+    destruct (step_inv fx allowC limit d o I Vo) as (I' & L' & C'); [lia|].
+    destruct (IH (fst (step fx allowC limit d o)) I' Vr) as (I'' & C''); [lia|].
     split; auto.
 Qed.
 
@@ -277,12 +277,12 @@ Proof.
   apply contains_in. apply A. exact Ir.
 Qed.
 
-Lemma push_step_tree : forall limit d hist del t',
+Lemma push_step_tree : forall fx limit d hist del t',
   hist <> [] -> d = update_flags (dtree d) -> push_tree (dtree d) hist del = Some t' ->
   N.of_nat (length t') <= limit ->
-  fst (push_step true limit d hist del false) = update_flags t'.
+  fst (push_step fx true limit d hist del false) = update_flags t'.
 Proof.
-  intros limit d hist del t' NE E H Lim. unfold push_step, push_tree in *.
+  intros fx limit d hist del t' NE E H Lim. unfold push_step, push_tree in *.
   destruct hist as [|h hist]; [congruence|].
   destruct (split_known (dtree d) (h :: hist)) as [nw base].
   destruct nw as [|n nw].
@@ -290,11 +290,11 @@ Proof.
   - unfold illegal_conflict. cbn [andb negb]. rewrite H. cbn [fst]. apply finish_small. exact Lim.
 Qed.
 
-Lemma run_pushes : forall S limit, wf S -> N.of_nat (length S) <= limit ->
+Lemma run_pushes : forall fx S limit, wf S -> N.of_nat (length S) <= limit ->
   forall ps t, sub_tree S t -> Forall (valid_push S) ps ->
-  exists t', push_all t ps = Some t' /\ run true limit (update_flags t) (map to_op ps) = update_flags t'.
+  exists t', push_all t ps = Some t' /\ run fx true limit (update_flags t) (map to_op ps) = update_flags t'.
 Proof.
-  intros S limit W Lim. induction ps as [|[hist d] ps IH]; intros t ST V.
+  intros fx S limit W Lim. induction ps as [|[hist d] ps IH]; intros t ST V.
   - exists t. split; reflexivity.
   - inversion V as [|? ? V1 V2]; subst. unfold valid_push in V1; cbn [fst snd] in V1.
     destruct hist as [|h hist]; [destruct V1|]. destruct V1 as [L ->].
@@ -302,7 +302,7 @@ Proof.
     destruct (IH t1 ST1 V2) as (t' & E' & R').
     exists t'. cbn [push_all map run]. rewrite E. split; auto.
     unfold to_op at 1; cbn [fst snd step].
-    rewrite (push_step_tree limit (update_flags t) (h :: hist) (delS S h) t1).
+    rewrite (push_step_tree fx limit (update_flags t) (h :: hist) (delS S h) t1).
     + exact R'.
     + congruence.
     + reflexivity.
@@ -314,21 +314,21 @@ Qed.
    same revisions of a source forest, each with its ancestry, in different orders, store trees with the
    same ids and parent links, the same leaves (id, parent, tombstone bit), the same current revision and
    the same Deleted / Conflict / Branched flags *)
-Theorem push_order_independent : forall S ps1 ps2 limit,
+Theorem push_order_independent : forall fx S ps1 ps2 limit,
   wf S -> Forall (valid_push S) ps1 -> Permutation ps1 ps2 -> N.of_nat (length S) <= limit ->
-  let d1 := run true limit empty_doc (map to_op ps1) in
-  let d2 := run true limit empty_doc (map to_op ps2) in
+  let d1 := run fx true limit empty_doc (map to_op ps1) in
+  let d2 := run fx true limit empty_doc (map to_op ps2) in
   wf (dtree d1) /\ wf (dtree d2) /\
   (forall i, contains (dtree d1) i = contains (dtree d2) i) /\
   (forall r1 r2, In r1 (dtree d1) -> In r2 (dtree d2) -> rid r1 = rid r2 -> rpar r1 = rpar r2) /\
   Permutation (leaves (dtree d1)) (leaves (dtree d2)) /\
   dcur d1 = dcur d2 /\ ddel d1 = ddel d2 /\ dconf d1 = dconf d2 /\ dbranch d1 = dbranch d2.
 Proof.
-  intros S ps1 ps2 limit W V1 P Lim. cbn zeta.
+  intros fx S ps1 ps2 limit W V1 P Lim. cbn zeta.
   assert (V2 : Forall (valid_push S) ps2) by (eapply Permutation_Forall; eauto).
   destruct (push_order_independent_tree S ps1 ps2 W V1 P) as (t1 & t2 & E1 & E2 & W1 & W2 & A & B & C & F).
-  destruct (run_pushes S limit W Lim ps1 [] (sub_tree_nil S) V1) as (t1' & E1' & R1).
-  destruct (run_pushes S limit W Lim ps2 [] (sub_tree_nil S) V2) as (t2' & E2' & R2).
+  destruct (run_pushes fx S limit W Lim ps1 [] (sub_tree_nil S) V1) as (t1' & E1' & R1).
+  destruct (run_pushes fx S limit W Lim ps2 [] (sub_tree_nil S) V2) as (t2' & E2' & R2).
   assert (t1' = t1) by congruence. assert (t2' = t2) by congruence. subst.
   change (update_flags []) with empty_doc in R1, R2. rewrite R1, R2.
   rewrite F. cbn [dtree dcur ddel dconf dbranch]. change (dtree (update_flags t2)) with t2.
@@ -337,9 +337,9 @@ Proof.
 Qed.
 
 (* every reachable document, as long as revs_limit is not reached *)
-Theorem reachable_noprune : forall allowC limit ops,
+Theorem reachable_noprune : forall fx allowC limit ops,
   Forall valid_op ops -> N.of_nat (ops_size ops) <= limit ->
-  let d := run allowC limit empty_doc ops in
+  let d := run fx allowC limit empty_doc ops in
   wf (dtree d) /\
   (dtree d <> [] ->
    exists w, max_leaf (dtree d) w /\ dcur d = Some (rid w) /\ ddel d = rdel w /\
@@ -348,8 +348,8 @@ Theorem reachable_noprune : forall allowC limit ops,
      (dbranch d = true <-> (2 <= length (leaves (dtree d)))%nat)) /\
   (allowC = false -> (length (filter live (leaves (dtree d))) <= 1)%nat).
 Proof.
-  intros allowC limit ops V Lim. cbn zeta.
-  destruct (run_inv allowC limit ops empty_doc dinv_empty V) as ([W E] & C); [cbn; lia|].
+  intros fx allowC limit ops V Lim. cbn zeta.
+  destruct (run_inv fx allowC limit ops empty_doc dinv_empty V) as ([W E] & C); [cbn; lia|].
   split; auto. split.
   - intros NE. pose proof (flags_agree _ W NE) as F. cbn zeta in F. rewrite <- E in F. exact F.
   - intros A. apply C; auto.
